@@ -145,6 +145,16 @@ def run_case(ctx, case, ir, lines):
     wantc = bilinear_oracle(p, case, aeromu, 0., 'cA') * 1j
     if p_bad is None and pc.rel_diff(cA, wantc) > 1e-8:
         p_bad = 'calc_cA differs from -aeromu*int(w_A w_B)*1j: rel %.3e' % pc.rel_diff(cA, wantc)
+    # linear in the coefficient it is CALLED with - including zero, negative and tiny values, whatever the panel's own aeromu attribute says
+    if p_bad is None:
+        sc = max(np.abs(cA).max(), 1e-300)
+        for other in (0., -0.37 * aeromu, 1e-9 * aeromu, 2.5 * aeromu):
+            pc.quiet(p.calc_cA, other, silent=True)
+            d3 = np.abs(p.cA.toarray() - cA * (other / aeromu)).max() / sc
+            if d3 > 1e-8 * max(abs(other / aeromu), 1.):
+                p_bad = ('calc_cA(%r) is not %r/%r times calc_cA(%r) (deviation %.3e of the matrix scale; panel attribute aeromu = %r): the damping matrix '
+                         'is not linear in the coefficient' % (other, other, aeromu, aeromu, d3, p.aeromu))
+                break
     return v_bad, p_bad, line, handed
 
 
